@@ -148,8 +148,9 @@ def run(ctx, shard):
     mode = shard["mode"]
     if mode in ("years", "walk"):
         cid = shard["cal"]; cal = gen.cal_by_id(cid); ref = R.reference_for(cid)
+        y_epoch = ref.from_day(0)[0]
         for y in range(shard["ylo"], shard["yhi"] + 1):
-            check_year(ctx, cid, cal, ref, y, mode == "walk", ctx.rng)
+            check_year(ctx, cid, cal, ref, y, mode == "walk" or abs(y - y_epoch) <= 1, ctx.rng)
         ctx.sample({"kind": "year", "cal": cid, "y": shard["ylo"], "reference_year_start": ref.year_start(shard["ylo"])})
     elif mode == "collide":
         # history-hostile order: years sharing a slot of the 1024-entry year caches, later year first
@@ -170,7 +171,7 @@ def run(ctx, shard):
         ctx.sample({"kind": "ord", "o": shard["lo"]})
     else:
         rng = ctx.rng
-        ords = set(range(1, 800)) | set(range(MAXORD - 800, MAXORD + 1)) | {rng.randint(1, MAXORD) for _ in range(120000)}
+        ords = set(range(1, 800)) | set(range(MAXORD - 800, MAXORD + 1)) | {rng.randint(1, MAXORD) for _ in range(120000)} | set(range(UNIX - 400, UNIX + 401))
         # 1900-2100 optimised window edges and century leap rules
         for y in (1899, 1900, 1901, 2000, 2099, 2100, 2101, 400, 100, 1600, 1700):
             for md in ((1, 1), (2, 28), (3, 1), (12, 31)):
